@@ -77,6 +77,13 @@ impl Res {
             permission: PermissionMask::from_bits(self.permission),
         }
     }
+    /// the resource as a resources file spells it
+    fn to_json_text(&self) -> String {
+        let kind = if self.template { "\"template\"".to_string() } else { format!("{{\"mime\":{}}}", serde_json::to_string(&self.mime).unwrap()) };
+        format!("{{\"name\":{},\"aliases\":{},\"kind\":{},\"content\":{},\"dependencies\":{},\"permission\":{}}}",
+            serde_json::to_string(&self.name).unwrap(), serde_json::to_string(&self.aliases).unwrap(), kind,
+            serde_json::to_string(&self.content()).unwrap(), serde_json::to_string(&self.deps).unwrap(), self.permission)
+    }
     fn json(&self) -> Value {
         json!({"name": self.name, "aliases": self.aliases, "template": self.template, "mime": self.mime, "bytes": self.bytes, "bad_base64": self.bad_base64, "deps": self.deps, "permission": self.permission})
     }
@@ -672,7 +679,17 @@ fn load(c: &Case, eff: &Effective, extra: Option<&str>, optimize: bool) -> (Load
                 for k in 0..prior_calls(c) {
                     engine.use_resources(prior_store(k).iter().map(|x| x.to_resource()));
                 }
-                engine.use_resources(c.store.iter().map(|x| x.to_resource()));
+                // a quarter of the stores reach the engine in their documented JSON form (the text a
+                // resources file holds), written by hand here and read back with serde
+                if (c.url.len() + c.store.len()) % 4 == 1 {
+                    let text = format!("[{}]", c.store.iter().map(|x| x.to_json_text()).collect::<Vec<_>>().join(","));
+                    match serde_json::from_str::<Vec<Resource>>(&text) {
+                        Ok(v) => engine.use_resources(v),
+                        Err(e) => { log.misbehaviour = Some(format!("the JSON form of the store does not load: {}", e)); engine.use_resources(c.store.iter().map(|x| x.to_resource())) }
+                    }
+                } else {
+                    engine.use_resources(c.store.iter().map(|x| x.to_resource()));
+                }
             }
             engine.use_tags(&tags);
             (Loaded::Eng(engine), log)
